@@ -285,7 +285,26 @@ def r17c(P, R):
     R.floor("R17-c", "schema-order iterations in the checker", n, 1)
 
 
-RULES = [("R17-a", r17a), ("R17-b", r17b), ("R17-c", r17c)]
+def r17pc(P, R):
+    """positive controls: the detectors must fire on engine/selfcheck (compiled with the same driver) on every run"""
+    from facts import Program
+    SC = Program(harness.selfcheck_facts())
+    got = {}
+    for f, i, n, what in hash_sources(SC):
+        v, why = classify(SC, f, i, n)
+        if v != "insensitive" and opaque_function(f):
+            v = "insensitive"
+        got[f.name] = v
+    want = {"hash_order_leaks": "sensitive", "hash_keys_unsorted": "sensitive", "hash_to_set": "insensitive"}
+    for k, w in want.items():
+        R.check("R17-pc", "control:" + k, got.get(k) == w, "positive control classified %s" % w,
+                "self-check: the hash-iteration classifier returns %r for control `%s` (expected %s): the rule cannot be trusted" % (got.get(k), k, w))
+    hits = SC.ext_callers(lambda p: p.startswith(NONDET))
+    R.check("R17-pc", "control:time", any(f.name == "now_secs" for f, c, n in hits), "time API control detected",
+            "self-check: the time/RNG detector does not see SystemTime::now in the control crate")
+
+
+RULES = [("R17-a", r17a), ("R17-b", r17b), ("R17-c", r17c), ("R17-pc", r17pc)]
 EXPLANATION = (
     "Hash-seed independence, for all inputs and all seeds: every expression in the workspace that exposes the iteration order "
     "of a std HashMap/HashSet (iter/keys/values/drain/retain/into_iter, for-loops, Debug formatting; resolved by receiver type, "
